@@ -1,6 +1,7 @@
 #!/bin/bash
 # Reach of the quick workloads, measured rather than asserted: builds the harness with source-based coverage
-# instrumentation (nightly -Cinstrument-coverage), runs the parent process of every quick check once, merges the
+# instrumentation (nightly -Cinstrument-coverage), runs the parent process of every quick check once (every fourth pooled job: the
+# counters are shared between 16 threads and the instrumented binary is an order of magnitude slower; COVERAGE_THIN=1 for all), merges the
 # counters and writes /verif/coverage/SUMMARY.md: per-file line/region coverage of /repo/src plus every line of
 # /repo/src that no monitor workload executed.  Not a registered check and not a verdict: it says where the
 # monitors have NOT looked, so a clean run is never read as covering code it did not drive.
@@ -23,7 +24,7 @@ for id in "${IDS[@]}"; do
   case "$id" in C07|C17) fl=hooks ;; *) fl=nohooks ;; esac
   export VCHECK_REL_BIN="$ROOT/harness/target-rel-$fl/verifrel/vcheck" VCHECK_REL_FLAVOUR="$fl"
   [ "$id" = C10 ] && export VCHECK_DEV_BIN="$ROOT/harness/target-dev/verifdev/vcheck"
-  LLVM_PROFILE_FILE="$RAW/$id-%p-%m.profraw" "$TD/verif/vcheck" run "$id" --tier quick >"$RAW/$id.out" 2>&1
+  LLVM_PROFILE_FILE="$RAW/$id-%p-%m.profraw" VERIF_THIN="${COVERAGE_THIN:-4}" "$TD/verif/vcheck" run "$id" --tier quick >"$RAW/$id.out" 2>&1
   echo "$id exit=$? $(grep -c . "$RAW/$id.out") lines of output"
 done
 "$BIN_DIR/llvm-profdata" merge -sparse "$RAW"/*.profraw -o "$TD/merged.profdata" || exit 2
